@@ -194,15 +194,18 @@ def ensure(tags=None, repo=None, log=None, race=False):
             raise
         os.replace(tmp, out)
         log("built %s for tree %s in %.1fs" % (name, fp, time.time() - t0))
-        _prune(os.path.join(CACHE, "bin"), keep=4)
+        _prune(os.path.join(CACHE, "bin"), keep=6)
     return out
 
 
 def _prune(bindir, keep):
+    """Drops old binaries, but never one used within the last 3 hours: a long check started on an earlier tree may still be running it."""
     ds = [os.path.join(bindir, x) for x in os.listdir(bindir) if os.path.isdir(os.path.join(bindir, x))]
     ds.sort(key=lambda p: os.path.getmtime(p), reverse=True)
+    now = time.time()
     for p in ds[keep:]:
-        shutil.rmtree(p, ignore_errors=True)
+        if now - os.path.getmtime(p) > 3 * 3600:
+            shutil.rmtree(p, ignore_errors=True)
 
 
 if __name__ == "__main__":
